@@ -120,6 +120,12 @@ def struct_mutants(rnd, buf):
     emit("comp0", comp_type=0); emit("comp2", comp_type=2); emit("comp1", comp_type=1)
     emit("flags4", flags=h.flags ^ 4)
     emit("count+1", count=n + 1); emit("count-1", count=max(0, n - 1))
+    # an index size that claims more than the entries present, with and without unused bytes behind the signature section
+    # for the parser to run into (one or two digest lengths of them)
+    cds = ref.DIGEST_SIZE.get(h.chunk_hash_type, 16)
+    for k in (1, cds, cds + 3, 2 * cds):
+        for t in (0, cds, cds + 9, 2 * cds + 1):
+            emit("isz+%d-tail%d" % (k, t), index_size=h.index_size + k, tail=bytes(t), keep_pad=False)
     dd = bytearray(h.data_digest); dd[0] ^= 1; emit("datadigest", data_digest=bytes(dd))
     emit("dropchunk", entries=[dict(e) for e in E[:-1]])
     emit("dupchunk", entries=[dict(e) for e in E] + [dict(E[-1])])
